@@ -32,6 +32,8 @@ ASSUMPTIONS = ["floating-point rounding is outside the theorems (the property it
                "bounding box cuts oblique frusta, depending on their direction) - a finding reported in round 7, not compared here",
                "volume under scaling: compared only while every non-zero radius step along an edge is >= 1e-5 length units before and after (the code's "
                "absolute 1e-6 'no taper' band of the sphere/frustum overlap, DESIGN §8, is not scale free: inside it the unchanged library is 0.3-0.5 % off s^3)",
+               "angles between branches (extract_feature.get('branch_angle')) are compared under rotation, translation and renumbering (3e-3 rad; 1e-4 rad "
+               "under float32-exact translations), not under scaling: the unchanged library divides by |u||v| + 1e-7, which is not scale free",
                "far translations and power-of-two scale factors are exact in float32; decimal unit changes (1e-9 .. 1e9) round every coordinate by 6e-8 relative, "
                "which stays below the tolerance because the shortest compartment is >= 1/512 of the neuron's extent"]
 
@@ -133,7 +135,16 @@ def features(t, sholl_rs, protocol=None, order_seed=None):
                     pas.append(float(lm.partition_asymmetry(t.node(v))))
             out["angles"] = sorted(angles); out["partition_asymmetry"] = sorted(pas)
 
-        blocks = [b_node, b_path, b_branch, b_length, b_orders, b_volume, b_sholl, b_angles]
+        def b_branch_angle():
+            # the matrix of angles between the branches' end-to-end directions (radians), as extract_feature reports it; the order of
+            # the branches follows the numbering, so the entries are compared as a multiset
+            if n > 1:
+                from swcgeom.analysis.feature_extractor import extract_feature
+                A = np.asarray(extract_feature(t).get("branch_angle"), dtype=np.float64)
+                out["branch_angle"] = sorted(float(v) for v in A.ravel())
+                out["branch_angle_shape"] = [int(v) for v in A.shape]
+
+        blocks = [b_node, b_path, b_branch, b_length, b_orders, b_volume, b_sholl, b_angles, b_branch_angle]
         if order_seed is not None:
             _r.Random(order_seed).shuffle(blocks)
         for b in blocks:
@@ -778,6 +789,25 @@ class Metamorphic(Suite):
                 exp = "unchanged" if kind != "scale" else f"×{s}^3"
                 out.append((f"{kind}-changes-volume-mc", f"{what} turned get_volume (accuracy {case['mc']}) {x} into {y} (expected {exp} within {MC_TOL:.1%}: "
                             f"far above the sampling noise); pids={case['tree']['pids']}"))
+        # extract_feature(x).get("branch_angle"): the angles between branches (radians, entries as a multiset).  Judged under rotation,
+        # translation and renumbering; NOT under scaling: the unchanged library adds an absolute eps = 1e-7 to |u||v| before dividing, so
+        # its angles drift towards pi/2 as the neuron shrinks (see ASSUMPTIONS) - nothing can be compared there.
+        if kind != "scale" and ("branch_angle" in a or "branch_angle" in b):
+            x, y = a.get("branch_angle"), b.get("branch_angle")
+            lim = 1e-4 if kind == "far" else 3e-3
+            try:
+                ok = (a.get("branch_angle_shape") == b.get("branch_angle_shape") and len(x) == len(y)
+                      and all(math.isfinite(u) and math.isfinite(v) and abs(u - v) <= lim for u, v in zip(x, y)))
+            except TypeError:
+                ok = False
+            if not ok:
+                try:
+                    worst = max(zip(x, y), key=lambda q: abs(q[0] - q[1]) if math.isfinite(q[0] - q[1]) else math.inf)
+                except (TypeError, ValueError):
+                    worst = None
+                out.append((f"{kind}-changes-branch_angle", f"{what} turned the angles between branches (extract_feature.get('branch_angle'), sorted, rad) "
+                            f"{str(x)[:100]} into {str(y)[:100]} (largest change {worst}; expected unchanged within {lim} rad); "
+                            f"pids={case['tree']['pids']}{proto}"))
         for key in ("counts", "branch_order", "lm_branch_order", "terminal_degree", "sholl"):
             if key in a and a[key] != b.get(key):
                 out.append((f"{kind}-changes-{key}", f"{key} changed from {a[key]} to {b.get(key)} under {kind}; pids={case['tree']['pids']}{proto}"))
